@@ -14,6 +14,8 @@ focus = [
     "encoding/json.go and encoding/embedded.go",
     "claims_p1.go and claims_p2.go (setters)",
     "iclaims.go and evidence.go (encode/decode entry points)",
+    "the small helper functions isCBORMap (iclaims.go: its loop over tag heads), checkPublicKey and knownAlgorithm (evidence.go) -- one change in each of the three",
+    "the small helper functions isCBORMap (iclaims.go: its loop over tag heads), checkPublicKey (evidence.go) and DecodeClaimsFromCBOR (iclaims.go) -- one change in each of the three; for isCBORMap prefer restructuring the loop (loop condition vs break, computing the head length with a switch or a table instead of a shift, an index variable instead of re-slicing)",
 ][k]
 props = [json.loads(l) for l in open('/verif/properties.jsonl')]
 ptxt = "\n".join(f"  {p['id']}: {p['title']} -- {p['statement']}" for p in props)
